@@ -180,6 +180,20 @@ def rule_r2(facts, rep, rid="C06-R2"):
         rep.ok(rid, t.def_ + "|extension-only-for-references", "%d use(s) of refs_extension, all under `if self.is_ref()`" % len(ext_sites), t.loc)
     else:
         rep.violation(rid, t.def_ + "|extension-only-for-references", "refs_extension is appended outside an is_ref() branch (%d of %d uses) or not used at all" % (bad, len(ext_sites)), t.loc)
+    # the extension is appended idempotently: a url that already carries it is stripped first (`[t](2.md)` must not become `2.md.md`)
+    branches = []
+    for x in fb.walk(t.body):
+        if x.get("k") == "if" and any((fb.callee(y) or "").endswith("GraphInline::is_ref") for y in fb.calls_in(x["c"])) and \
+                any(y.get("k") == "field" and y.get("name") == "refs_extension" for y in fb.walk(x["t"])):
+            branches.append(x["t"])
+    for n, br in enumerate(branches):
+        strips = [y for y in fb.walk(br) if y.get("k") == "mcall" and y["name"] in ("strip_suffix", "trim_end_matches") and y["args"] and ("field", "refs_extension") in ct.mentions(y["args"][0])]
+        key = "%s|extension-appended-idempotently|%d" % (t.def_, n)
+        if strips:
+            rep.ok(rid, key, "the url is stripped of the configured extension before it is appended", loc(t, strips[0]))
+        else:
+            rep.violation(rid, key, "the reference branch appends refs_extension to the url as written: with refs_extension = \".md\" a link `[t](2.md)` (which refers to note 2) is written back "
+                          "as `[t](2.md.md)` and refers to another note on the next read", loc(t, br))
     # Projector: url relative to self.parent; parent is threaded unchanged
     p = facts.fn("Projector::project_node")
     rep.saw_fn(p)
